@@ -8,6 +8,10 @@ c02_util.py), through
   * the array form           PointArray.intersects(shape)            (all five subtypes)
   * the positions form       PointArray.intersects(shape, inds)      (repeats, missing slots)
   * the scalar form          Point.intersects(shape)                 (every non-missing element)
+  * the positions form again with `inds` in every form a caller may give it (narrow / unsigned
+    integer arrays holding positions beyond half the type's range on arrays of 400 and 33 100
+    points, list, tuple, negative, empty, read-only, strided), element by element against the
+    array form and the scalar form
 
 compared with Model/PointShape.v (three_forms) evaluated by the Coq kernel on the exported
 buffers of the very same point array and scalar shape; and both the implementation and the
@@ -645,7 +649,10 @@ def run(rep):
                 'multilines, multipoints, points; seeded random 5-7-vertex rings on a 5x5 grid; nested '
                 'multipolygons (island parts inside holes of other parts, 0..14, points -1..15); multipoints of '
                 '17-300 points on 0..8 squared (staircases, few columns, grid subsets; points -1..9); each '
-                'shape through array / inds / scalar forms, all 5 subtypes; a case is one shape x one '
+                'shape through array / inds / scalar forms, all 5 subtypes; the positions form also with inds '
+                'as int8/uint8/int16/uint16/int32/uint32/int64 arrays beyond half the type\'s range (400 and '
+                '33100 points), list, tuple, negative, empty, read-only, strided, against each shape kind, '
+                'element by element against the array and the scalar form; a case is one shape x one '
                 'point array (56 slots); non-trivial = the answers contain both True and False; '
                 'distinct = distinct (kind, coordinates)')
     variants = build_variants()
@@ -736,11 +743,120 @@ def run(rep):
         rep.evaluations += 1
         rep.count('arrow_scalar_offset' if sem else 'degenerate:arrow_scalar_offset_0level')
     flush(rep, batch)
+    inds_forms_section(rep, tier)
     rep.extra['point_shape_pairs'] = pairs
     rep.extra['model_cases'] = len(batch.cases)
     rep.extra['point_buffers_source'] = {v.name: v.rec_source for v in variants}
     rep.extra['model_vs_oracle_cases'] = sum(1 for m in batch.meta if m['oracle'] is not None)
     run_float_model(rep)
+
+
+# --------------------------------------------------------------------------
+# the positions form with `inds` given in every way a caller may give it
+# --------------------------------------------------------------------------
+def _wide_points(n, width, missing):
+    return [None if i in missing else [float(i % width), float(i // width)] for i in range(n)]
+
+
+def _wide_shapes(rng, width, height, marks):
+    """shapes of the six kinds over the grid 0..width-1 x 0..height-1 whose answers vary from
+    point to point (so that a position read from the wrong slot is noticed); `marks` are grid
+    points that must be hit (the Point shapes, vertices of the multipoint, ...)"""
+    W, H = float(width), float(height)
+    out = [('point', list(m)) for m in marks]
+    mp = [c for m in marks for c in m]
+    for _ in range(60):
+        mp += [float(rng.randrange(width)), float(rng.randrange(height))]
+    out.append(('multipoint', mp))
+    # diagonal zigzags through lattice points
+    zig = []
+    x, y, k = 0.0, 0.0, 0
+    while y < H - 1 and len(zig) < 80:
+        zig += [x, y]
+        step = min(W - 1 - x if k % 2 == 0 else x, H - 1 - y)
+        if step <= 0:
+            break
+        x, y, k = (x + step if k % 2 == 0 else x - step), y + step, k + 1
+    zig += [x, y]
+    out.append(('line', zig))
+    out.append(('multiline', [[0.0, H - 1, min(W, H) - 1, H - min(W, H)], [c for m in marks for c in m] * 2,
+                              [W - 1, 0.0, W - 1, H - 1, 0.0, H - 1]]))
+    poly = [2.5, -1.0, W - 3.5, 3.5, W / 2, H + 0.5, W / 3, H / 2 + 0.25, 1.5, H / 2, 2.5, -1.0]
+    hole = [W / 2 - 1.5, H / 3, W / 2 + 2.25, H / 3 + 0.5, W / 2, H / 3 + 3.25, W / 2 - 1.5, H / 3]
+    out.append(('polygon', [poly, hole]))
+    out.append(('multipolygon', [[[0.5, 0.5, W / 4, 1.5, W / 5, H / 2, 0.5, 0.5]],
+                                 [[W / 2, H / 2 - 0.5, W + 1, H / 2 + 0.25, W / 2 + 0.5, H + 1, W / 2, H / 2 - 0.5]]]))
+    return out
+
+
+def inds_forms_section(rep, tier):
+    """PointArray.intersects(shape, inds) with the positions given as int8 / uint8 / int16 /
+    uint16 / int32 / uint32 / int64 arrays holding values beyond half the type's range (arrays of
+    400 and of 33 100 points), as a list, a list of numpy integers, a tuple, with negative
+    positions, empty, read-only, strided: every answer equal, element by element, to the array
+    form at that position AND to the scalar form Point.intersects(shape) of that element"""
+    import time
+    t0 = time.time()
+    rng = rep.rng
+    specs = [('wide400:missing', 400, 20, {5, 100, 128, 399}, 'float64'),
+             ('wide400:full', 400, 20, set(), 'float64'),
+             ('wide33100:missing', 33100, 200, {64, 16384, 32800}, 'float64')]
+    if tier != 'quick':
+        specs += [('wide400:int32', 400, 20, {7, 130}, 'int32'), ('wide33100:float32', 33100, 200, set(), 'float32')]
+    for name, n, width, missing, st in specs:
+        pts = _wide_points(n, width, missing)
+        arr = _parr(pts, st)
+        height = (n + width - 1) // width
+        # positions whose own coordinates are used for the Point shapes / vertices: one beyond
+        # half the range of each narrow type
+        mark_pos = [p for p in (101, 201, 20001, 32901) if p < n]
+        marks = [pts[p] for p in mark_pos]
+        shapes = _wide_shapes(rng, width, height, marks)
+        for kind, coords in shapes:
+            if st != 'float64' and kind != 'point':
+                coords = _intify(coords)
+            shape = U.make_shape(kind, coords, 'array:' + st)
+            meta = {'family': 'inds-forms', 'array': name, 'n': n, 'width': width, 'missing': sorted(missing),
+                    'subtype': st, 'kind': kind, 'coords': coords}
+            r = call(lambda: arr.intersects(shape))
+            if r[0] != 'ok':
+                rep.violation(f'inds-form:{kind}:array-form-raises', f'intersects({kind}) raised on {name}',
+                              {**meta, 'impl': list(r)})
+                continue
+            full = np.asarray(r[1])
+            cache = {}
+
+            def scalar_at(p):
+                if p not in cache:
+                    e = arr[p]
+                    cache[p] = False if e is None else bool(e.intersects(shape))
+                return cache[p]
+            forms = U.inds_forms(rng, n, tuples=True, must=mark_pos)
+            probs = U.check_inds_forms(forms, lambda inds: arr.intersects(shape, inds), full, scalar_at)
+            rep.evaluations += len(forms)
+            rep.count('inds-forms:calls', len(forms))
+            rep.count(f'inds-forms:{kind}')
+            vals = [bool(full[p]) for _, _, pos in forms for p in pos]
+            if any(vals) and not all(vals):
+                rep.count('inds-forms:answers-vary')
+                rep.nontrivial(('inds-forms', name, kind))
+            seen = set()
+            for fname, problem, detail in probs:
+                sig = f'inds-form:{kind}:{problem}'
+                if sig in seen:
+                    continue
+                seen.add(sig)
+                rep.violation(sig, f'PointArray.intersects({kind}, inds) with the positions given as '
+                              f'{fname}: {problem} ({detail})',
+                              {**meta, 'form': fname, 'detail': detail,
+                               'all_problems': [[a, b] for a, b, _ in probs][:40]})
+    rep.extra['inds_forms_seconds'] = round(time.time() - t0, 1)
+
+
+def _intify(coords):
+    if isinstance(coords, list):
+        return [_intify(c) for c in coords]
+    return int(round(coords))
 
 
 def run_float_model(rep):
@@ -763,6 +879,12 @@ def replay(rep, rp):
     if rp.get('float_kernel'):
         from . import cfloat_util
         return cfloat_util.replay(rep, rp)
+    if rp.get('family') == 'inds-forms':
+        # the section is deterministic given the seed: run it again
+        inds_forms_section(rep, 'quick' if rp.get('subtype') == 'float64' else 'thorough')
+        for vio in rep.violations:
+            print('  ', vio['signature'], '-', vio['what'])
+        return not rep.violations
     variants = build_variants()
     names = [v.name for v in variants]
     batch = Batch(variants)
